@@ -23,6 +23,7 @@ import (
 	"github.com/database64128/shadowsocks-go/conn"
 	"github.com/database64128/shadowsocks-go/netio"
 	"github.com/database64128/shadowsocks-go/service"
+	"github.com/database64128/shadowsocks-go/tlscerts"
 	"github.com/database64128/shadowsocks-go/verifhook"
 	"github.com/database64128/shadowsocks-go/zerocopy"
 	"go.uber.org/zap"
@@ -232,14 +233,24 @@ var (
 )
 
 // NewClient builds a client from JSON.
-func NewClient(cfgJSON []byte) (*Client, error) {
+func NewClient(cfgJSON []byte) (*Client, error) { return NewClientTLS(cfgJSON, nil) }
+
+// NewClientTLS builds a client whose configuration may refer to the certificate list / CA pool of t (nil: none).
+func NewClientTLS(cfgJSON []byte, t *Topo) (*Client, error) {
 	c := &Client{}
 	if err := DecodeStrict(cfgJSON, &c.Cfg); err != nil {
 		return nil, err
 	}
+	var store *tlscerts.Store
+	if t != nil {
+		var err error
+		if store, err = t.certStore(); err != nil {
+			return nil, err
+		}
+	}
 	cacheMu.Lock()
 	defer cacheMu.Unlock()
-	if err := c.Cfg.Initialize(nil, lcCache, dCache, zap.NewNop()); err != nil {
+	if err := c.Cfg.Initialize(store, lcCache, dCache, zap.NewNop()); err != nil {
 		return nil, err
 	}
 	if c.Cfg.EnableTCP {
@@ -504,10 +515,10 @@ type TCPTarget struct {
 	// Release, for mode "banner-then-rst": the target sends Banner after the peer's EOF, waits for Release to be
 	// closed and then aborts the connection with RST.
 	Release chan struct{}
-	Ln     *net.TCPListener
-	Addr   netip.AddrPort
-	mu     sync.Mutex
-	sess   []*TCPSession
+	Ln      *net.TCPListener
+	Addr    netip.AddrPort
+	mu      sync.Mutex
+	sess    []*TCPSession
 }
 
 // NewTCPTarget listens on ip:port.
